@@ -125,7 +125,7 @@ def fam_nested(names, depth, nodes):
                 yield _layout([('r1', c)], ['r1', inner])
 
 
-def fam_spine(names):
+def fam_spine(names, znames=None):
     """x/{y/z.py, w/v.py}: the smallest shape on which `from ..w import v` is meaningful at
     depth 3; all kinds for x, y, w and all names (y != w)."""
     for x in names:
@@ -136,7 +136,7 @@ def fam_spine(names):
                         if w == y:
                             continue
                         for kw in 'PN':
-                            for z in names:
+                            for z in znames or names:
                                 for v in names:
                                     inner = tuple(sorted([(y, ky, ((z, 'M', None),)),
                                                           (w, kw, ((v, 'M', None),))]))
@@ -148,17 +148,16 @@ def families(tier):
         return [
             ('single-root<=3 nodes/depth3/pool2', list(fam_single(POOL2, 3, 3))),
             ('two-roots<=3 nodes/depth3/pool2', list(fam_pairs(POOL2, 3, 3))),
-            ('nested-root<=3 nodes/depth3/pool2', list(fam_nested(POOL2, 3, 3))),
-            ('spine(5 nodes)/pool2', list(fam_spine(POOL2))),
+            ('nested-root<=3 nodes/depth2/pool2', list(fam_nested(POOL2, 2, 3))),
+            ('spine(5 nodes, z=a)/pool2', list(fam_spine(POOL2, POOL2[:1]))),
         ]
     return [
         ('single-root<=4 nodes/depth4/pool2', list(fam_single(POOL2, 4, 4))),
         ('two-roots<=4 nodes/depth4/pool2', list(fam_pairs(POOL2, 4, 4))),
         ('nested-root<=4 nodes/depth4/pool2', list(fam_nested(POOL2, 4, 4))),
-        ('spine(5 nodes)/pool3', list(fam_spine(POOL3))),
+        ('spine(5 nodes)/pool2', list(fam_spine(POOL2))),
         ('single-root<=3 nodes/depth3/pool3', list(fam_single(POOL3, 3, 3))),
-        ('two-roots<=3 nodes/depth3/pool3', list(fam_pairs(POOL3, 3, 3))),
-        ('nested-root<=3 nodes/depth3/pool3', list(fam_nested(POOL3, 3, 3))),
+        ('spine(5 nodes, z=a)/pool3', list(fam_spine(POOL3, POOL3[:1]))),
     ]
 
 
@@ -348,8 +347,23 @@ def plan(layout, base, tier='quick'):
         is_main = f == main
         if is_main:
             stmts = abs_stmts + gen_statements([], names[:1], [1])[:1]
-        else:
+        elif tier != 'quick':
             stmts = abs_stmts + gen_statements([], names, range(1, maxk[f] + 2))
+        else:
+            # quick: from a module on sys.path an absolute form is issued only where the issuing
+            # location could matter: its first component names the module's own top-level
+            # package/module (self / circular reference) or, inside a package, a sibling in
+            # the module's own directory (what an implicit relative import would pick).
+            # Beyond-top-level relative imports: one form.
+            d = os.path.dirname(f)
+            tops = {c.split('.')[0] for c in dict(file_names)[f]}
+            near = set(tops)
+            if maxk[f] > 0:
+                near |= {n for n in names if os.path.exists(os.path.join(d, n + '.py'))
+                         or os.path.isdir(os.path.join(d, n))}
+            stmts = gen_statements([t for t in targets if t[0] in near], names, [], al) \
+                + gen_statements([], names, range(1, maxk[f] + 1)) \
+                + gen_statements([], names[:1], [maxk[f] + 1])[:1]
         rel = os.path.relpath(f, base)
         for form, level, text, uses, probes in stmts:
             programs.append({
@@ -379,11 +393,16 @@ def _fresh_base():
     return d
 
 
-def _forget(base):
-    """Drop parso's in-memory trees of this tree's files: the issuing module's *buffer* (the
-    statement under test) must not be served later as the content of the file on disk."""
+def _forget(base, only=None):
+    """Drop parso's in-memory trees of this tree's files (or of one file): the issuing
+    module's *buffer* (the statement under test) must not be served later as the content of
+    the file on disk."""
     import parso.cache
     for g in parso.cache.parser_cache.values():
+        if only is not None:
+            for p in [p for p in g if str(p) == only]:
+                del g[p]
+            continue
         for p in [p for p in g if str(p).startswith(base)]:
             del g[p]
 
@@ -398,7 +417,6 @@ def jedi_names(jedi, env, pl):
     out = {}
     for f in pl['files'] + [pl['main']]:
         rec = {}
-        _forget(pl['base'])
         try:
             s = jedi.Script(path=f, project=_project(jedi, pl), environment=env)
             c = s.get_context()
@@ -431,12 +449,12 @@ def _canon_name(d):
 
 def run_program(jedi, env, pl, prog):
     """-> per probe per method: sorted list of canonical results, or {'exc': ...}"""
-    _forget(pl['base'])
     obs = []
     try:
         script = jedi.Script(prog['code'], path=prog['file'], project=_project(jedi, pl),
                              environment=env)
     except Exception as e:
+        _forget(pl['base'], prog['file'])
         return {'script_exc': [canon.exc_site(e), canon.short_tb(e)]}
     for pr in prog['probes']:
         line, col = pr[3], pr[4]
@@ -453,13 +471,15 @@ def run_program(jedi, env, pl, prog):
             except Exception as e:
                 per[m] = {'exc': [canon.exc_site(e), canon.short_tb(e)]}
         obs.append(per)
+    del script
+    _forget(pl['base'], prog['file'])
     return {'obs': obs}
 
 
 def run_child(docs, names):
     doc = {'pool': list(names), 'trees': docs}
     env = {k: v for k, v in os.environ.items()
-           if k not in ('LD_PRELOAD', 'PYTHONPATH', 'PYTHONSTARTUP', 'PYTHONHOME')}
+           if k not in ('PYTHONPATH', 'PYTHONSTARTUP', 'PYTHONHOME')}
     p = subprocess.run([CHILD_PY, '-I', '-S', '-B', CHILD], input=json.dumps(doc), env=env,
                        capture_output=True, text=True, timeout=1800)
     if p.returncode != 0:
@@ -547,6 +567,8 @@ def judge(layout, pl, jn, ch, jobs, only_pid=None):
             continue
         inc('programs')
         exp = ch['programs'][prog['pid']].get(name)
+        if exp is not None:
+            exp = {c: exp.get(c, exp['A']) for c in CONDS}
         if exp is None or any('harness' in exp[c] for c in CONDS):
             raise RuntimeError('oracle gave no answer for %s as %s: %r' % (prog['pid'], name, exp))
         if 'script_exc' in job:
